@@ -314,18 +314,20 @@ Lemma cu_narrow_sound fl p ids cn cu e :
   out_same (sem_gen fl p e) (sem_gen fl (narrow_to cu p) (restrict_env cu e)).
 Proof. intros OK IO CU OK'. exact (covers_narrow_sound_guarded fl cu p e OK (columns_used_covers cn p ids cu CU IO) OK'). Qed.
 
+Local Open Scope string_scope.
+Local Open Scope list_scope.
 (* the witness of the rebuild defect: t[x,y,z].drop_columns([y]).extend({w: x + 1}).select_columns([w]) *)
 Definition narrow_witness : op :=
   OSelectCols (OExtend (ODropCols (OTable "t" ["x"; "y"; "z"]) ["y"])
                        [("w", EOp "+" [ECol "x"; EConst (VNum 1)])] false (mkwin [] [] []))
-              ["w"]%string.
+              ["w"].
 Definition narrow_witness_ids : idt := IdT 0 [IdT 1 [IdT 2 [IdT 3 []]]].
 Lemma narrow_rebuild_refuted :
   exists (p : op) (ids : idt) (cu : list (string * list string)),
-    builder_ok p = true /\ ids_ok (cn_of p ids) p ids /\ columns_used p ids = Some cu /\ cu = [("t", ["x"])]%string /\
+    builder_ok p = true /\ ids_ok (cn_of p ids) p ids /\ columns_used p ids = Some cu /\ cu = [("t", ["x"])] /\
     builder_ok (narrow_to cu p) = false.
 Proof.
-  exists narrow_witness, narrow_witness_ids, [("t", ["x"])]%string.
+  exists narrow_witness, narrow_witness_ids, [("t", ["x"])].
   split; [vm_compute; reflexivity|]. split; [apply ids_okb_ok; vm_compute; reflexivity|].
   split; [vm_compute; reflexivity|]. split; [reflexivity|vm_compute; reflexivity].
 Qed.
